@@ -1,1 +1,382 @@
-/-! STUB — property C06 is not built yet. -/
+import Martian.Lemmas.Mitm
+import Martian.Generated.Mitm
+/-!
+C06 — Forged certificates verify for the requested host under the configured CA.
+Only property theorems and non-vacuity examples live here.
+
+Quantifiers: every host byte string (`hostname`, as the SNI or the CONNECT authority gives it),
+every time `now` (an `Int`, ms; times in a history need not be monotone), every cache state reachable
+by any history of requests (`run`), every schedule of the two atomic steps of N concurrent requesters
+(`runSched`). "Verifies" is the abstract `verifiesFor` (name/IP match, window, CA signature); RSA, x509
+and ASN.1 are trusted and exercised by the harness with Go's real verifier and real handshakes.
+
+The model follows the **repaired** code (repo-patches/C06-fix-refuse-empty-host.patch);
+`empty_host_served_before_fix` is the defect on the code before the repair.
+
+`Servable hostname` (decidable): after port stripping the host is non-empty, not ".", and does not
+begin with `[`. Every spelling the property lists satisfies it (`normalise_portForm` for the spellings
+with a port; the examples at the end); `[v6]` without a port does not (`bracketed_v6_without_port`).
+-/
+namespace Martian.Props.C06
+open Martian Martian.Go Martian.Mitm
+
+/-! ### one call of `Config.cert` -/
+
+/-- The certificate returned for a servable host verifies for the port-stripped host at the time of
+the call, whatever the cache holds (fresh or reused), provided the configured validity is at least
+one second (ASN.1 times are whole seconds, see `subsecond_validity_born_expired`). -/
+theorem returned_cert_verifies (cfg : Config) (hostname : Bytes) (now : Int) (s : State) {c : Cert} {f : Bool}
+    (hv : 1000 ≤ cfg.validity) (hs : Servable hostname)
+    (h : (cert cfg hostname now s).2 = .served c f) :
+    verifiesFor c (normalise hostname) now = true := by
+  unfold cert at h
+  simp only at h
+  split at h
+  · cases h
+  · unfold certFor at h
+    split at h
+    · split at h
+      · rename_i hg
+        cases h
+        exact verifiesFor_of_goVerify hs.1 hg
+      · simp only [issueAndStore, Outcome.served.injEq] at h
+        rw [← h.1]
+        exact verifiesFor_issue cfg now _ hv hs.1 hs.2.1 hs.2.2
+    · simp only [issueAndStore, Outcome.served.injEq] at h
+      rw [← h.1]
+      exact verifiesFor_issue cfg now _ hv hs.1 hs.2.1 hs.2.2
+
+/-- A host that names something is never refused. -/
+theorem named_host_served (cfg : Config) (hostname : Bytes) (now : Int) (s : State)
+    (hne : normalise hostname ≠ []) : (cert cfg hostname now s).2 ≠ .refused := by
+  unfold cert
+  simp only
+  split
+  · rename_i he
+    exact absurd (by simpa using he) hne
+  · exact certFor_never_refuses _ _ _ _
+
+/-- A cached entry that no longer verifies (window passed, or any other reason) is not handed out:
+a fresh certificate (new serial) is issued, stored under the same key, and it verifies. -/
+theorem stale_entry_replaced (cfg : Config) (hostname : Bytes) (now : Int) (s : State) (old : Cert)
+    (hne : normalise hostname ≠ [])
+    (hold : s.cache.lookup (normalise hostname) = some old)
+    (hstale : goVerify old (normalise hostname) now = false) :
+    let fresh := issue cfg (normalise hostname) now s.next
+    cert cfg hostname now s = (store s (normalise hostname) fresh, .served fresh true) ∧
+      (cert cfg hostname now s).1.cache.lookup (normalise hostname) = some fresh ∧
+      fresh.serial = s.next ∧
+      (1000 ≤ cfg.validity → Servable hostname → verifiesFor fresh (normalise hostname) now = true) := by
+  have he : (normalise hostname).isEmpty = false := by
+    cases hn : normalise hostname with
+    | nil => exact absurd hn hne
+    | cons _ _ => rfl
+  have hc : cert cfg hostname now s =
+      (store s (normalise hostname) (issue cfg (normalise hostname) now s.next),
+        .served (issue cfg (normalise hostname) now s.next) true) := by
+    simp [cert, he, certFor, hold, hstale, issueAndStore]
+  refine ⟨hc, ?_, rfl, fun hv hs => verifiesFor_issue cfg now _ hv hs.1 hs.2.1 hs.2.2⟩
+  rw [hc]
+  simp [store]
+
+/-- In particular an entry whose validity window has passed is stale. -/
+theorem expired_is_stale (c : Cert) (host : Bytes) (now : Int) (h : c.notAfter < now) :
+    goVerify c host now = false := by
+  have : ¬ now ≤ c.notAfter := by omega
+  simp [goVerify, inWindow, this]
+
+/-- A cached certificate is reused only while it still verifies for that host … -/
+theorem reuse_only_while_valid (cfg : Config) (hostname : Bytes) (now : Int) (s : State) {c : Cert}
+    (h : (cert cfg hostname now s).2 = .served c false) :
+    s.cache.lookup (normalise hostname) = some c ∧ goVerify c (normalise hostname) now = true ∧
+      (cert cfg hostname now s).1 = s := by
+  unfold cert at h ⊢
+  simp only at h ⊢
+  split at h
+  · cases h
+  · rename_i he
+    simp only [he]
+    unfold certFor at h ⊢
+    split at h
+    · rename_i c0 hl
+      split at h
+      · rename_i hg
+        cases h
+        simp [hl, hg]
+      · simp [issueAndStore] at h
+    · simp [issueAndStore] at h
+
+/-- … and while it does, it is the one served (no needless re-issue), the state is unchanged. -/
+theorem valid_entry_reused (cfg : Config) (hostname : Bytes) (now : Int) (s : State) (c : Cert)
+    (hne : normalise hostname ≠ [])
+    (hl : s.cache.lookup (normalise hostname) = some c) (hg : goVerify c (normalise hostname) now = true) :
+    cert cfg hostname now s = (s, .served c false) := by
+  have he : (normalise hostname).isEmpty = false := by
+    cases hn : normalise hostname with
+    | nil => exact absurd hn hne
+    | cons _ _ => rfl
+  simp [cert, he, certFor, hl, hg]
+
+/-- No cross-host reuse: under the cache invariant the served certificate carries exactly the SAN
+the template builds for the port-stripped requested host — `DNSNames = [host]` or
+`IPAddresses = [ip]`, nothing else — is signed by the CA and backed by the proxy's key. -/
+theorem no_cross_host (cfg : Config) (hostname : Bytes) (now : Int) (s : State) {c : Cert} {f : Bool}
+    (hi : CacheInv s) (h : (cert cfg hostname now s).2 = .served c f) :
+    (c.names, c.ips) = sanFor (normalise hostname) ∧ c.signedByCA = true ∧ c.keyHeld = true := by
+  unfold cert at h
+  simp only at h
+  split at h
+  · cases h
+  · exact (certFor_served hi h).1
+
+/-- A DNS host gets exactly `DNSNames = [host]`, an IP literal exactly `IPAddresses = [ip]`. -/
+theorem san_dns_or_ip (host : Bytes) :
+    (parseIP host = none ∧ sanFor host = ([host], [])) ∨ (∃ ip, parseIP host = some ip ∧ sanFor host = ([], [ip])) := by
+  unfold sanFor
+  cases parseIP host with
+  | none => exact Or.inl ⟨rfl, rfl⟩
+  | some ip => exact Or.inr ⟨ip, rfl, rfl⟩
+
+/-- The only cache key a call touches is the port-stripped host; every other key keeps its entry. -/
+theorem cache_key_is_normalised_host (cfg : Config) (hostname : Bytes) (now : Int) (s : State) :
+    ((cert cfg hostname now s).1 = s ∨
+      ∃ c, (cert cfg hostname now s).1 = store s (normalise hostname) c ∧ (cert cfg hostname now s).2 = .served c true) ∧
+    ∀ k, k ≠ normalise hostname → (cert cfg hostname now s).1.cache.lookup k = s.cache.lookup k := by
+  have key : (cert cfg hostname now s).1 = s ∨
+      ∃ c, (cert cfg hostname now s).1 = store s (normalise hostname) c ∧ (cert cfg hostname now s).2 = .served c true := by
+    unfold cert
+    simp only
+    split
+    · exact Or.inl rfl
+    · unfold certFor
+      split
+      · split
+        · exact Or.inl rfl
+        · exact Or.inr ⟨_, rfl, rfl⟩
+      · exact Or.inr ⟨_, rfl, rfl⟩
+  refine ⟨key, ?_⟩
+  intro k hk
+  cases key with
+  | inl h => rw [h]
+  | inr h =>
+    obtain ⟨c, hc, _⟩ := h
+    rw [hc]
+    simp only [store, List.lookup]
+    have : (k == normalise hostname) = false := by simpa using hk
+    simp [this]
+
+/-! ### host selection and refusal -/
+
+/-- `TLSForHost`: no SNI and a fallback host that names nothing (empty, `:443`, `[]:443`) — the
+handshake is refused and nothing is cached. -/
+theorem no_host_refused (cfg : Config) (fallback : Bytes) (now : Int) (s : State)
+    (h : normalise fallback = []) : getCertForHost cfg fallback [] now s = (s, .refused) := by
+  simp [getCertForHost, cert, h]
+
+/-- `TLS()`: no SNI — refused. -/
+theorem tls_no_sni_refused (cfg : Config) (now : Int) (s : State) : getCertTLS cfg [] now s = (s, .refused) := by
+  simp [getCertTLS]
+
+/-- Refusal happens only then: a request is refused iff the selected host names nothing. -/
+theorem refused_iff_no_host (cfg : Config) (r : Req) (s : State) :
+    (serve cfg r s).2 = .refused ↔ normalise r.host = [] := by
+  have hc : ∀ h t, (cert cfg h t s).2 = .refused ↔ normalise h = [] := by
+    intro h t
+    constructor
+    · intro hr
+      apply Classical.byContradiction
+      intro hne
+      exact named_host_served cfg h t s hne hr
+    · intro he
+      simp [cert, he]
+  cases r with
+  | tls sni t =>
+    simp only [serve, getCertTLS, Req.host]
+    split
+    · rename_i he
+      have : sni = [] := by simpa using he
+      subst this
+      simp [normalise, splitHostPort, lastIndexOf]
+    · exact hc sni t
+  | forHost fb sni t => exact hc _ t
+
+/-- SNI wins over the fallback host; the fallback is used exactly when SNI is absent. -/
+theorem sni_or_fallback (cfg : Config) (fallback sni : Bytes) (now : Int) (s : State) :
+    getCertForHost cfg fallback sni now s = cert cfg (if sni = [] then fallback else sni) now s := by
+  unfold getCertForHost
+  cases sni <;> simp
+
+/-- The defect before the repair (F06): with no SNI and the fallback `:443` the unrepaired code
+serves — and caches under the empty key — a certificate whose only DNS name is the empty string. -/
+theorem empty_host_served_before_fix :
+    (certUnpatched { validity := 3600000, org := [] } (strBytes ":443") 1000000 {}).2 =
+      .served (issue { validity := 3600000, org := [] } [] 1000000 0) true ∧
+    (issue { validity := 3600000, org := [] } [] 1000000 0).names = [[]] := by
+  decide
+
+/-! ### every history -/
+
+/-- Organisation: with the configuration fixed, every entry of every reachable cache carries it. -/
+theorem org_in_every_history (cfg : Config) (rs : List Req) :
+    ∀ k c, (k, c) ∈ (run cfg rs {}).cache → c.org = cfg.org := by
+  suffices h : ∀ (rs : List Req) (s : State), (∀ k c, (k, c) ∈ s.cache → c.org = cfg.org) →
+      ∀ k c, (k, c) ∈ (run cfg rs s).cache → c.org = cfg.org from h rs {} (by simp)
+  intro rs
+  induction rs with
+  | nil => intro s hs; exact hs
+  | cons r rs ih =>
+    intro s hs
+    apply ih
+    have hcert : ∀ h t, ∀ k c, (k, c) ∈ (cert cfg h t s).1.cache → c.org = cfg.org := by
+      intro h t k c hm
+      rcases (cache_key_is_normalised_host cfg h t s).1 with he | ⟨c', he, hserved⟩
+      · rw [he] at hm; exact hs k c hm
+      · rw [he] at hm
+        simp only [store, List.mem_cons, Prod.mk.injEq] at hm
+        rcases hm with ⟨_, rfl⟩ | hm
+        · -- the stored certificate is a fresh one
+          unfold cert at hserved
+          simp only at hserved
+          split at hserved
+          · cases hserved
+          · unfold certFor at hserved
+            split at hserved
+            · split at hserved
+              · simp at hserved
+              · simp only [issueAndStore, Outcome.served.injEq] at hserved
+                rw [← hserved.1]; rfl
+            · simp only [issueAndStore, Outcome.served.injEq] at hserved
+              rw [← hserved.1]; rfl
+        · exact hs k c hm
+    cases r with
+    | tls sni t =>
+      simp only [serve, getCertTLS]
+      split
+      · exact hs
+      · exact hcert sni t
+    | forHost fb sni t => exact hcert _ t
+
+/-- **The property over all histories.** After any history of requests (any hosts, any times) on a
+fresh `Config`, the answer to any further request is either a refusal — exactly when neither SNI nor
+the fallback names a host — or a certificate that carries exactly the SAN of the port-stripped
+requested host, the configured organisation, the CA's signature and the proxy's key, and that verifies
+for that host at the time of the request. -/
+theorem served_cert_right_in_every_history (cfg : Config) (rs : List Req) (r : Req) {c : Cert} {f : Bool}
+    (h : (serve cfg r (run cfg rs {})).2 = .served c f) :
+    normalise r.host ≠ [] ∧
+    (c.names, c.ips) = sanFor (normalise r.host) ∧
+    c.org = cfg.org ∧ c.signedByCA = true ∧ c.keyHeld = true ∧
+    (1000 ≤ cfg.validity → Servable r.host → verifiesFor c (normalise r.host) r.time = true) := by
+  have hi : CacheInv (run cfg rs {}) := cacheInv_run cfg rs cacheInv_init
+  have horg := org_in_every_history cfg rs
+  have hne : normalise r.host ≠ [] := by
+    intro he
+    have := (refused_iff_no_host cfg r (run cfg rs {})).mpr he
+    rw [this] at h; cases h
+  -- reduce both modes to one call of `cert` on `r.host` at `r.time`
+  have hcert : (cert cfg r.host r.time (run cfg rs {})).2 = .served c f := by
+    cases r with
+    | tls sni t =>
+      simp only [serve, getCertTLS] at h
+      split at h
+      · cases h
+      · exact h
+    | forHost fb sni t => exact h
+  have hsan := no_cross_host cfg r.host r.time _ hi hcert
+  refine ⟨hne, hsan.1, ?_, hsan.2.1, hsan.2.2, fun hv hs => returned_cert_verifies cfg _ _ _ hv hs hcert⟩
+  -- organisation: cached entries carry it by the invariant, fresh ones by construction
+  unfold cert at hcert
+  simp only at hcert
+  split at hcert
+  · cases hcert
+  · rcases (certFor_served hi hcert).2 with ⟨_, hl, _, _⟩ | ⟨_, hc, _, _⟩
+    · exact horg _ _ (mem_of_lookup hl)
+    · rw [hc]; rfl
+
+/-! ### concurrent handshakes -/
+
+/-- N requesters run `Config.cert` concurrently as two atomic steps each (lookup+verify under the
+read lock; issue+insert under the write lock), interleaved by an arbitrary schedule with arbitrary
+times, starting from any reachable cache. Whoever has returned holds a refusal only if its own host
+names nothing, otherwise a certificate issued for **its own** port-stripped host (exact SAN, CA
+signature, proxy key) that verified for that host when it was handed out. Last-writer-wins on the
+map is harmless. -/
+theorem concurrent_own_host (cfg : Config) (hosts : List Bytes) (s : State) (hc : CacheInv s)
+    (sched : List (Nat × Int)) (i : Nat) (hostname : Bytes) (o : Outcome) (t : Int)
+    (hh : hosts[i]? = some hostname)
+    (hd : (runSched cfg sched { st := s, threads := hosts.map Pc.start }).threads[i]? = some (.done o t)) :
+    match o with
+    | .refused => normalise hostname = []
+    | .served c _ =>
+      normalise hostname ≠ [] ∧ (c.names, c.ips) = sanFor (normalise hostname) ∧
+      c.signedByCA = true ∧ c.keyHeld = true ∧
+      (1000 ≤ cfg.validity → Servable hostname → verifiesFor c (normalise hostname) t = true) := by
+  have hinv := sysInv_run (cfg := cfg) (hosts := hosts) sched (sysInv_start (cfg := cfg) (hosts := hosts) hc)
+  obtain ⟨h', hh', hg⟩ := hinv.2 i _ hd
+  rw [hh] at hh'
+  cases hh'
+  cases o with
+  | refused => exact hg
+  | served c f => exact ⟨hg.1, hg.2.1.1, hg.2.1.2.1, hg.2.1.2.2, hg.2.2⟩
+
+/-- The sequential function is the two steps run back to back (so the schedule semantics really is
+`Config.cert` cut at its lock boundaries). -/
+theorem two_steps_are_cert (cfg : Config) (hostname : Bytes) (now : Int) (s : State) :
+    let sys := stepThread cfg (stepThread cfg { st := s, threads := [.start hostname] } 0 now) 0 now
+    sys.st = (cert cfg hostname now s).1 ∧ sys.threads = [.done (cert cfg hostname now s).2 now] := by
+  by_cases he : (normalise hostname).isEmpty = true
+  · simp [stepThread, cert, he]
+  · cases hl : s.cache.lookup (normalise hostname) with
+    | none => simp [stepThread, cert, certFor, he, hl, issueAndStore]
+    | some c =>
+      cases hg : goVerify c (normalise hostname) now <;>
+        simp [stepThread, cert, certFor, he, hl, hg, issueAndStore]
+
+/-! ### facts regenerated from the source on every check (vextract, `Generated/Mitm.lean`) -/
+
+/-- The cache map is touched in exactly two places of the package: the lookup inside an
+(R)Lock/(R)Unlock pair and the insert inside a Lock/Unlock pair of `certmu` — the two atomic steps
+of `stepThread`. An edit that adds an unguarded access or drops a lock breaks this theorem. -/
+theorem facts_lock_discipline :
+    Generated.Mitm.certsAccesses = 2 ∧ Generated.Mitm.lookupUnderLock = true ∧
+      Generated.Mitm.insertUnderWriteLock = true := by decide
+
+/-- Defaults of `NewConfig`, which the driver's initial state (3 600 000 ms, "Martian Proxy") mirrors. -/
+theorem facts_defaults :
+    Generated.Mitm.defaultValidity = "time.Hour" ∧ Generated.Mitm.defaultOrg = "\"Martian Proxy\"" := by decide
+
+/-! ### boundaries of the statement (documented, not findings) -/
+
+/-- Why validity ≥ 1 s is assumed: certificate times are whole seconds, so a 50 ms validity issued at
+…1.900 s ends at …1.000 s — born expired. -/
+theorem subsecond_validity_born_expired :
+    inWindow (issue { validity := 50, org := [] } (strBytes "example.com") 1900 0) 1900 = false := by
+  decide
+
+/-- Outside the listed spellings: a bracketed IPv6 literal **without** a port is not stripped, does not
+parse as an IP, gets a DNS-name SAN `[::1]`, and that certificate does not verify for the host (Go's
+verifier reads `[::1]` as the address ::1). Not demanded by the property; recorded here. -/
+theorem bracketed_v6_without_port :
+    ¬ Servable (strBytes "[::1]") ∧
+    (issue { validity := 3600000, org := [] } (normalise (strBytes "[::1]")) 5000 0).names = [strBytes "[::1]"] ∧
+    verifiesFor (issue { validity := 3600000, org := [] } (normalise (strBytes "[::1]")) 5000 0) (strBytes "[::1]") 5000 = false := by
+  decide
+
+/-! ### non-vacuity: the listed spellings are servable and normalise as intended -/
+
+example : Servable (strBytes "Example.COM") ∧ normalise (strBytes "Example.COM") = strBytes "Example.COM" := by decide
+example : Servable (strBytes "example.com:443") ∧ normalise (strBytes "example.com:443") = strBytes "example.com" := by decide
+example : Servable (strBytes "10.0.0.1:8443") ∧ normalise (strBytes "10.0.0.1:8443") = strBytes "10.0.0.1" := by decide
+example : Servable (strBytes "::1") ∧ normalise (strBytes "::1") = strBytes "::1" := by decide
+example : Servable (strBytes "[2001:db8::1]:443") ∧ normalise (strBytes "[2001:db8::1]:443") = strBytes "2001:db8::1" := by decide
+example : normalise (strBytes ":443") = [] ∧ normalise [] = [] ∧ normalise (strBytes "[]:443") = [] := by decide
+example : sanFor (strBytes "10.0.0.1") = ([], [[0, 0, 0, 0, 0, 0, 0, 0, 0, 0, 255, 255, 10, 0, 0, 1]]) := by decide
+example : sanFor (strBytes "::1") = ([], [[0, 0, 0, 0, 0, 0, 0, 0, 0, 0, 0, 0, 0, 0, 0, 1]]) := by decide
+example : sanFor (strBytes "example.com") = ([strBytes "example.com"], []) := by decide
+/-- the hypotheses of `stale_entry_replaced` are satisfiable: a 2-second certificate, three seconds later -/
+example : let c := issue { validity := 2000, org := [] } (strBytes "example.com") 10400 0
+    goVerify c (strBytes "example.com") 10401 = true ∧ goVerify c (strBytes "example.com") 13400 = false := by decide
+/-- a mixed-case request verifies against its own certificate, and a cached lower-case one would too -/
+example : verifiesFor (issue { validity := 2000, org := [] } (strBytes "example.com") 10400 0) (strBytes "EXAMPLE.com") 10400 = true := by decide
+
+end Martian.Props.C06
